@@ -18,6 +18,8 @@ From JK Require Import Base.Dec.
 From JK Require Import Model.MsgTable.
 From JK Require Import Gen.MsgTable.
 From JK Require Import Proofs.MsgTableProofs.
+From JK Require Import Model.SignBytes.
+From JK Require Import Proofs.SignBytesProofs.
 From JK Require Import Model.OwnResource.
 From JK Require Import Proofs.OwnResourceProofs.
 Import ListNotations.
@@ -37,6 +39,27 @@ Theorem C11_registered_url_is_well_formed :
     m_url r = url /\ m_signers r = SignerFields ["Creator"%string] /\ registered r /\ has_handler r.
 Proof. exact registered_url_is_well_formed_thm. Qed.
 Print Assumptions C11_registered_url_is_well_formed.
+
+(* a signature belongs to one message: whatever two different message types hold in their fields, the JSON values
+   they contribute to the amino-JSON document an account signs are different (every type signs under an amino name,
+   no two under the same: re-checked on the table generated from this run's sources), and the signed value
+   determines every field *)
+Theorem C11_signed_document_names_the_message_type :
+  forall r1 r2 f1 f2, In r1 msg_table -> In r2 msg_table -> m_url r1 <> m_url r2 ->
+    sign_doc (m_amino r1) f1 <> sign_doc (m_amino r2) f2.
+Proof. exact sign_docs_of_different_types_differ_thm. Qed.
+Print Assumptions C11_signed_document_names_the_message_type.
+
+Theorem C11_signed_document_determines_the_fields :
+  forall a f1 f2, sign_doc a f1 = sign_doc a f2 -> f1 = f2.
+Proof. exact sign_doc_determines_fields. Qed.
+Print Assumptions C11_signed_document_determines_the_fields.
+
+(* the defect that was repaired: without a name two types with the same fields sign the same value *)
+Example C11_bare_documents_collide :
+  forall f, sign_doc None f = sign_doc None f /\
+            sign_doc (Some "storage/Attest"%string) f <> sign_doc (Some "storage/Report"%string) f.
+Proof. exact bare_sign_docs_collide. Qed.
 
 Example C11_table_not_empty : msg_table <> [].
 Proof. exact msg_table_nonempty. Qed.
